@@ -241,19 +241,18 @@ func TestC10_Known_RestrictChainNonHeadBranch(t *testing.T) {
 		return fmt.Sprintf("P(100) -> A, P -> B accepted; child C of A: err=%v", err)
 	})
 	r.Case("pinned-nonhead-child-2", true, nil)
-	bad := ""
-	if err != nil {
-		bad = "valid child C of stored header A rejected: " + firstLine(err.Error())
-	} else {
+	if err == nil {
+		// no longer rejected: then the rest of the property must hold (a different failure here is NOT the listed finding)
 		tree := ethsim.NewTree(p)
 		ida, _ := tree.Add(0, a)
 		tree.Add(0, b)
 		idc, _ := tree.Add(ida, cc)
-		bad = checkHeadAndAncestry(c, ctx, tree, idc)
-	}
-	if bad == "" {
+		if msg := checkHeadAndAncestry(c, ctx, tree, idc); msg != "" {
+			t.Fatalf("child C of stored header A accepted (P -> A, P -> B, head B, then C) but: %s", msg)
+		}
 		return // no longer reproduces
 	}
+	bad := "valid child C of stored header A rejected: " + firstLine(err.Error())
 	if kf.Listed("C10", kfNonHead) {
 		kf.Report("C10", kfNonHead)
 		r.KnownFinding(kfNonHead, bad)
